@@ -77,7 +77,7 @@ class Ctx:
                 raise
             except Exception as e:  # a crashing rule must not pass silently
                 tb = traceback.format_exc()
-                self.errors.append("%s[%s]: %s" % (name, cfg, tb))
+                self.errors.append("%s[%s]: ...%s" % (name, cfg, tb[-1200:]))
                 self.ob(False, "rule-crashed", "", "%s: %s" % (type(e).__name__, e))
         self.current_rule = None
         self.current_cfg = None
